@@ -283,6 +283,10 @@ class Gen:
         lv = v["live"]
         if not lv:
             return None
+        if self.opts.get("no_fock_ops"):
+            lv = [n for n in lv if v["w"].kind(n) != "F"]
+            if not lv:
+                return None
         name = self.ch(lv)
         kind = v["w"].kind(name)
         if kind == "F":
@@ -321,9 +325,14 @@ class Gen:
             opts += ["CXPolarization", "CZPolarization", "SwapPolarization"]
         if len(pols) >= 3:
             opts += ["CSwapPolarization"]
-        if len(focks) >= 2:
+        if len(focks) >= 2 and not self.opts.get("no_fock_ops"):
             opts += ["NonPolarizingBeamSplitter"] * 2
-        opts += ["Expression"]
+        if self.opts.get("no_fock_ops"):
+            ns = [n for n in ns if w.kind(n) != "F"]
+        if len(ns) >= 2:
+            opts += ["Expression"]
+        if not opts:
+            return None
         focus = self.opts.get("comp_types")
         if focus:
             opts = [o for o in opts if o in focus] or opts
